@@ -242,7 +242,7 @@ class C13(Prop):
                  {"name": "side", "kind": "fn", "params": [["x", None]], "dataOuts": ["s"], "body": {"b": "tag", "t": "side"}}]
         nodes += [{"name": t, "kind": "fn", "params": [["x", None]], "dataOuts": [f"o_{t}"], "body": {"b": "tag", "t": t}} for t in ts]
         rng.shuffle(nodes)
-        return {"program": [{"name": "g0", "nodes": nodes, "bound": []}], "values": [["a", rng.choice([1, 1, 2])]], "cfg": {}}
+        return {"program": [{"name": "g0", "nodes": nodes, "bound": []}], "values": [["a", 1 if with_end else rng.choice([1, 1, 2])]], "cfg": {}}
 
     @staticmethod
     def _rand_proc(rng: random.Random) -> dict:
